@@ -66,9 +66,9 @@ func (r *mapReader) addBlock(b *types.Block, canonical bool) {
 	}
 }
 
-func (r *mapReader) Config() *params.ChainConfig    { return r.cfg }
-func (r *mapReader) GetContext() context.Context    { return context.Background() }
-func (r *mapReader) CurrentHeader() *types.Header   { return r.head }
+func (r *mapReader) Config() *params.ChainConfig  { return r.cfg }
+func (r *mapReader) GetContext() context.Context  { return context.Background() }
+func (r *mapReader) CurrentHeader() *types.Header { return r.head }
 func (r *mapReader) GetHeader(hash common.Hash, number uint64) *types.Header {
 	h := r.headers[hash]
 	if h == nil || (r.strict && h.Number.Uint64() != number) {
